@@ -44,8 +44,21 @@ def dump_obj(g):
     return dict(nodes=nodes, edges=edges)
 
 
-def dump(g):
-    return json.dumps(dump_obj(g), sort_keys=True, default=repr)
+def dump(g, unordered_bonding=False):
+    d = dump_obj(g)
+    if unordered_bonding:
+        # the pair of descriptors that formed a bond is stored as a tuple on an undirected edge;
+        # its orientation follows the direction in which the base edge was visited
+        def fix(o):
+            for e in o['edges']:
+                if isinstance(e[2].get('bonding'), list):
+                    e[2]['bonding'] = sorted(e[2]['bonding'])
+            for n in o['nodes']:
+                for v in n[1].values():
+                    if isinstance(v, dict) and 'nodes' in v and 'edges' in v:
+                        fix(v)
+        fix(d)
+    return json.dumps(d, sort_keys=True, default=repr)
 
 
 # ----------------------------------------------------------------------------------------
@@ -132,6 +145,10 @@ def check_mapping(cg, fine, templates, all_atom, what=''):
         for a in image.values():
             for b in fine[a]:
                 if b in inv and not tmpl.has_edge(inv[a], inv[b]):
+                    # two atoms shared with one other coarse node may be bonded through that node's template
+                    common = (set(fine.nodes[a]['fragid']) & set(fine.nodes[b]['fragid'])) - {k}
+                    if common:
+                        continue
                     expect('bonding' in fine.edges[a, b], 'mapping:extra-internal-bond',
                            lambda: '%sbond %r-%r inside the copy of %s is not in the template' % (what, a, b, fragname))
     covered = set()
@@ -168,19 +185,19 @@ def template_descriptors(fine, n, templates):
 
 
 def check_bonds(cg, fine, templates, legacy, all_atom, dedicated, what=''):
-    per_edge = Counter()
+    units = []      # every unit of base-edge order consumed: (description, candidate base edges)
     inter = []
     for a, b, d in fine.edges(data=True):
         fa, fb = set(fine.nodes[a]['fragid']), set(fine.nodes[b]['fragid'])
-        if fa & fb:
-            continue
+        if fa & fb and 'bonding' not in d:
+            continue            # bond inside one fragment copy
         if all_atom:
             expect(fine.nodes[a].get('element') != 'H' and fine.nodes[b].get('element') != 'H',
                    'bonds:hydrogen-across-fragments', lambda: '%sbond %r-%r joins a hydrogen to another fragment' % (what, a, b))
         expect('bonding' in d, 'bonds:no-descriptor-pair',
                lambda: '%sbond %r-%r between coarse nodes %r and %r carries no bonding pair' % (what, a, b, sorted(fa), sorted(fb)))
         l, r = d['bonding']
-        pairs = [(x, y) for x in sorted(fa) for y in sorted(fb) if cg.has_edge(x, y)]
+        pairs = [(x, y) for x in sorted(fa) for y in sorted(fb) if x != y and cg.has_edge(x, y)]
         expect(pairs, 'bonds:not-across-a-base-edge',
                lambda: '%sbond %r-%r joins coarse nodes %r/%r which are not adjacent' % (what, a, b, sorted(fa), sorted(fb)))
         expect(compatible_ref(l, r, legacy), 'bonds:incompatible-pair',
@@ -198,15 +215,33 @@ def check_bonds(cg, fine, templates, legacy, all_atom, dedicated, what=''):
         else:
             expect(order == digit, 'bonds:order',
                    lambda: '%sbond %r-%r has order %r, descriptors %r/%r annotate %d' % (what, a, b, order, l, r, digit))
-        per_edge[frozenset(pairs[0])] += 1
+        units.append((('bond', a, b), [frozenset(p) for p in pairs]))
         inter.append((a, b, l, r))
+    # atoms merged by the shared-atom operator consume one unit per additional membership
+    for n, d in fine.nodes(data=True):
+        if len(d['fragid']) > 1 and 'mapping' in d:
+            fid = d['fragid']
+            cands = [frozenset((x, y)) for i, x in enumerate(fid) for y in fid[i + 1:] if cg.has_edge(x, y)]
+            for _ in range(len(fid) - 1):
+                units.append((('merge', n), cands))
+    # feasibility: every unit is attributed to one of its candidate base edges without exceeding
+    # any edge order (maximum flow); attribution is ambiguous for atoms with several memberships
+    flow = nx.DiGraph()
+    total_order = 0
     for x, y, o in cg.edges(data='order'):
-        c = per_edge[frozenset((x, y))]
-        expect(c <= o, 'bonds:more-than-edge-order',
-               lambda: '%s%d bonds between coarse nodes %r-%r of order %r' % (what, c, x, y, o))
-        if dedicated:
-            expect(c == o, 'bonds:fewer-than-edge-order',
-                   lambda: '%s%d bonds between coarse nodes %r-%r of order %r although a dedicated pair per unit exists' % (what, c, x, y, o))
+        flow.add_edge(('e', frozenset((x, y))), 'T', capacity=int(o))
+        total_order += int(o)
+    for i, (what_, cands) in enumerate(units):
+        flow.add_edge('S', ('u', i), capacity=1)
+        for c in cands:
+            flow.add_edge(('u', i), ('e', c), capacity=1)
+    value = nx.maximum_flow_value(flow, 'S', 'T') if units and 'T' in flow else 0
+    expect(value == len(units), 'bonds:more-than-edge-order',
+           lambda: '%s%d bonds/shared atoms between coarse nodes cannot be attributed to the base edges %r without exceeding an edge order (%d attributable)' % (
+               what, len(units), sorted((tuple(sorted(e)), o) for e, o in ((frozenset((x, y)), o) for x, y, o in cg.edges(data='order'))), value))
+    if dedicated:
+        expect(len(units) == total_order, 'bonds:fewer-than-edge-order',
+               lambda: '%s%d bonds/shared atoms for a total base-edge order of %d although a dedicated pair exists per unit' % (what, len(units), total_order))
     # descriptor usage: every bond uses one written descriptor on each side, none twice
     avail = {}
     for a, b, l, r in inter:
